@@ -7,7 +7,7 @@
 EXTENDS Naturals, Sequences, FiniteSets, TLC, Json
 CONSTANT MaxOps
 Stages == {"generated", "erased1", "erased2", "overwritten"}
-Ops == {"translate_own", "translate_other", "erase", "overwrite", "redump"}
+Ops == {"translate_own", "translate_other", "erase", "overwrite", "redump", "reload"}     \* reload: read the saved file once more
 VARIABLES stage,     \* where the program was saved
           ops,       \* operations applied since then, to both copies
           done
